@@ -7,11 +7,14 @@ import (
 	"github.com/compose-spec/compose-go/v2/cli"
 	"os"
 	"path/filepath"
+	"regexp"
 	"sort"
 	"strings"
 
 	"github.com/compose-spec/compose-go/v2/loader"
 	"github.com/compose-spec/compose-go/v2/types"
+
+	"gopkg.in/yaml.v3"
 
 	"verifh/core"
 	"verifh/mapctl"
@@ -25,7 +28,7 @@ type c01 struct{}
 func (c01) ID() string    { return "C01" }
 func (c01) Level() string { return "exploration" }
 func (c01) Rule() string {
-	return "(a) every attribute path of the schema (read from /repo/schema/compose-spec.json at run time) x 17 YAML node kinds (incl. two lists repeating their keys) placed at that path, as a single file, as a second document, as an override of the valid witness, as the base under a valid override, in an extended base, in an included file, and against the full corpus document as override / overridden / extending / extended / including / included; every pair of kinds as (base, override) at the same path; the single-file matrix through loader.LoadModelWithContext, cli LoadProject and cli LoadModel; the tags !reset / !override on 6 node shapes at every path and at the document root (single file, override of the full document, second document); (b) the single-file matrix under each of 10 load options flipped alone and all together (thorough: more option sets); (b') every pair of valid service attribute values of the three full corpus documents (whole, and cut down to each single child / grandchild of a mapping) on one service; (c) YAML alias/anchor cycles and merge keys, extends, include (every syntactic form of every edge incl. multi-path entries; 7 path spellings - relative, bare, through another directory, absolute, absolute with ., .. or // - of every edge of cycles of length 1..2; every load carries a listener that reports more than 5000 include/extends events as unbounded recursion) and depends_on cycles; (d) every {present, absent, directory-in-place} state vector of the files referenced by 5 scenarios, through the loader and through the cli entry point (override, extends chain, nested include with env files, env_file/label_file, cli .env); (e) every distance-1 byte edit (delete, insert/replace by 18 significant bytes) of 6 seed documents. Oracle: exactly one of project/error, no panic, no process death, no hang; cycles and missing required files are errors naming the file. distinct = distinct (position, kind, route, options) outcomes"
+	return "(a) every attribute path of the schema (read from /repo/schema/compose-spec.json at run time) (plus the keys the code singles out below user-keyed mappings, read from path patterns in the sources of /repo) x 21 YAML node kinds (incl. two lists repeating their keys, an integral float, integers beyond int64 / uint32, a negative integer) placed at that path, as a single file, as a second document, as an override of the valid witness, as the base under a valid override, in an extended base, in an included file, and against the full corpus document as override / overridden / extending / extended / including / included; every pair of kinds as (base, override) and as (base service, service extending it in the same file) at the same path; the single-file matrix through loader.LoadModelWithContext, cli LoadProject and cli LoadModel; the tags !reset / !override on 6 node shapes at every path and at the document root (single file, override of the full document, second document); (b) the single-file matrix under each of 10 load options flipped alone and all together (thorough: more option sets); (b') every pair of valid service attribute values of the three full corpus documents (whole, and cut down to each single child / grandchild of a mapping) on one service; (c) YAML alias/anchor cycles and merge keys, extends, include (every syntactic form of every edge incl. multi-path entries; 7 path spellings - relative, bare, through another directory, absolute, absolute with ., .. or // - of every edge of cycles of length 1..2; every load carries a listener that reports more than 5000 include/extends events as unbounded recursion) and depends_on cycles; (d) every {present, absent, directory-in-place} state vector of the files referenced by 5 scenarios, through the loader and through the cli entry point (override, extends chain, nested include with env files, env_file/label_file, cli .env); (e) every distance-1 byte edit (delete, insert/replace by 18 significant bytes) of 6 seed documents. Oracle: exactly one of project/error, no panic, no process death, no hang; cycles and missing required files are errors naming the file. distinct = distinct (position, kind, route, options) outcomes"
 }
 func (c01) Assumptions() []string {
 	return []string{
@@ -42,10 +45,17 @@ var c01kinds = []struct {
 	{"empty-list", []any{}}, {"list-str", []any{"s"}}, {"list-int", []any{0}}, {"list-emptymap", []any{map[string]any{}}}, {"list-map", []any{map[string]any{"k": "s"}}},
 	{"empty-map", map[string]any{}}, {"map-str", map[string]any{"k": "s"}}, {"map-map", map[string]any{"k": map[string]any{}}},
 	// sequences that repeat their keys (two keys, each given twice, first pair before the second key appears)
+	// numbers at the edges of what the decoders expect: a float that is an integer for the schema, an integer beyond int64,
+	// beyond uint32, and a negative one
+	{"float-integral", &yaml.Node{Kind: yaml.ScalarNode, Tag: "!!float", Value: "1.0"}},
+	{"huge-int", &yaml.Node{Kind: yaml.ScalarNode, Tag: "!!int", Value: "99999999999999999999"}},
+	{"int-2^32", 4294967296}, {"neg-int", -1},
 	{"list-dup-kv", []any{"A=1", "A=2", "B=1", "B=2"}},
 	{"list-dup-map", []any{map[string]any{"source": "a", "target": "/t", "published": "1"}, map[string]any{"source": "b", "target": "/t", "published": "1"},
 		map[string]any{"source": "a", "target": "/u", "published": "2"}, map[string]any{"source": "b", "target": "/u", "published": "2"}}},
 }
+
+var c01edgeKind = map[string]bool{"float-integral": true, "huge-int": true, "int-2^32": true, "neg-int": true}
 
 // c01renamed moves the witness document onto the names the full corpus document uses, so that both define the same entries.
 func c01renamed(doc map[string]any) map[string]any {
@@ -156,6 +166,47 @@ func c01total(id string, s *Scn, optName string) core.Outcome {
 	return core.Outcome{Class: id + "/" + cls, Sample: map[string]any{"case": id, "outcome": cls}}
 }
 
+var c01patRe = regexp.MustCompile(`"((?:services|networks|volumes|secrets|configs)\\.[a-z_*.\\[\\]-]+)"`)
+
+// c01codePaths reads the path patterns written as string literals in the library's sources and turns them into concrete
+// paths of the witness document (first * = the witness name, later * = a free key).
+func c01codePaths() [][]string {
+	witness := map[string]string{"services": "s", "networks": "n", "volumes": "v", "secrets": "x", "configs": "x"}
+	seen := map[string]bool{}
+	var out [][]string
+	for _, dir := range []string{"paths", "transform", "override", "validation", "loader", "interpolation", "types"} {
+		ents, _ := os.ReadDir(filepath.Join(RepoDir(), dir))
+		for _, e := range ents {
+			if !strings.HasSuffix(e.Name(), ".go") || strings.HasSuffix(e.Name(), "_test.go") {
+				continue
+			}
+			b, err := os.ReadFile(filepath.Join(RepoDir(), dir, e.Name()))
+			if err != nil {
+				continue
+			}
+			for _, m := range c01patRe.FindAllStringSubmatch(string(b), -1) {
+				parts := strings.Split(m[1], ".")
+				if len(parts) < 3 || parts[1] != "*" {
+					continue
+				}
+				p := []string{parts[0], witness[parts[0]]}
+				for _, x := range parts[2:] {
+					if x == "*" {
+						x = "key"
+					}
+					p = append(p, x)
+				}
+				if k := strings.Join(p, "."); !seen[k] {
+					seen[k] = true
+					out = append(out, p)
+				}
+			}
+		}
+	}
+	sort.Slice(out, func(i, j int) bool { return strings.Join(out[i], ".") < strings.Join(out[j], ".") })
+	return out
+}
+
 func panicClass(v any) string {
 	s := fmt.Sprint(v)
 	switch {
@@ -184,6 +235,21 @@ func (c01) Run(c *core.Ctx) {
 		paths = append(paths, []string{top})
 	}
 	paths = append(paths, sch.Paths([]string{"include"}, "key", 4)...)
+	// keys the code singles out below user-keyed mappings (path patterns found as string literals in the sources of
+	// /repo, e.g. volumes.*.driver_opts.device): the schema walk only has a free key there
+	{
+		have := map[string]bool{}
+		for _, p := range paths {
+			have[strings.Join(p, ".")] = true
+		}
+		for _, p := range c01codePaths() {
+			if !have[strings.Join(p, ".")] {
+				have[strings.Join(p, ".")] = true
+				paths = append(paths, p)
+				c.Count("code_derived_paths", 1)
+			}
+		}
+	}
 	c.Count("schema_paths", int64(len(paths)))
 	valid := "services:\n  s:\n    image: i\n"
 	routes := []string{"single", "second-doc", "override-on-valid", "valid-override-on-it", "extends-base", "included",
@@ -196,6 +262,9 @@ func (c01) Run(c *core.Ctx) {
 			for _, route := range routes {
 				if c.Expired() {
 					return
+				}
+				if c.Quick() && c01edgeKind[k.name] && (strings.Contains(route, "rich") || route == "second-doc" || route == "valid-override-on-it") {
+					continue // quick: the numeric edge kinds on the four basic routes only
 				}
 				p, k, doc, route := p, k, doc, route
 				id := fmt.Sprintf("kind/%s/%s/%s", ps, k.name, route)
@@ -273,6 +342,9 @@ func (c01) Run(c *core.Ctx) {
 			}
 			// option lattice on the single-file route
 			for _, o := range c01opts[1:] {
+				if c.Quick() && c01edgeKind[k.name] && o.name != "SkipValidation" {
+					continue
+				}
 				if c.Quick() && (o.name == "SkipInclude" || o.name == "ConvertWindowsPaths" || o.name == "discard-env-files" || o.name == "profiles-star" || o.name == "SkipExtends") {
 					continue
 				}
@@ -286,7 +358,7 @@ func (c01) Run(c *core.Ctx) {
 	}
 	{
 		// every pair of node kinds as (base, override) at the same path (quick: 6 representative kinds; thorough: all 15)
-		reprPair := map[string]bool{"null": true, "string": true, "list-str": true, "list-emptymap": true, "empty-map": true, "map-str": true}
+		reprPair := map[string]bool{"null": true, "zero": true, "string": true, "list-str": true, "list-emptymap": true, "empty-map": true, "map-str": true}
 		for _, p := range paths {
 			ps := strings.Join(p, ".")
 			for _, k1 := range c01kinds {
@@ -306,6 +378,24 @@ func (c01) Run(c *core.Ctx) {
 					c.Do(id, func() core.Outcome {
 						return c01total(id, &Scn{Files: map[string]string{"compose.yaml": d1, "over.yaml": d2}, Main: []string{"compose.yaml", "over.yaml"}, Env: map[string]string{"U": "u"}, InMem: true}, "default")
 					})
+					// the same pair as (base service, service extending it) in one file: neither side has been validated
+					// when they are merged
+					if p[0] == "services" && len(p) > 2 && p[2] != "extends" {
+						p, k1, k2 := p, k1, k2
+						id := fmt.Sprintf("pair-extends/%s/%s/%s", ps, k1.name, k2.name)
+						c.Do(id, func() core.Outcome {
+							base := c01docAt(p, k1.val)["services"].(map[string]any)["s"]
+							d := c01docAt(p, k2.val)
+							svcs := d["services"].(map[string]any)
+							svc, ok := svcs["s"].(map[string]any)
+							if !ok {
+								return core.Outcome{Class: "na", Trivial: true}
+							}
+							svc["extends"] = map[string]any{"service": "b"}
+							svcs["b"] = base
+							return c01total(id, &Scn{Files: map[string]string{"compose.yaml": mapToYAML(d)}, Main: []string{"compose.yaml"}, Env: map[string]string{"U": "u"}, InMem: true}, "default")
+						})
+					}
 				}
 			}
 		}
